@@ -207,7 +207,7 @@ fn one_scenario(run: &Run, case: u64) {
 
 pub fn run(tier: Tier, replay: Option<Value>) -> i32 {
     let run = Run::new("C04", "fault_enumeration", tier, replay);
-    let n = tier.pick(8, 96);
+    let n = tier.pick(8, 300);
     run.par_cases(n, super::threads(), |case| one_scenario(&run, case));
     run.finish(
         "scenarios as in C03 (small blocks so combined-block flushes happen mid-run); for EVERY operation k of the backup's storage trace and each kind in {not-found, already-exists, permission-denied, other} the operation is made to fail (not executed, error returned); plus random multi-fault runs with p in {0.02, 0.1, 0.3}. After each run: no panic and no unbounded storage loop; every file that existed before is byte-identical; earlier versions restore exactly; every file entry of every hunk of every band, decoded independently, resolves through the raw blocks to exactly the bytes its path had in that band's source; a run that reports full success (Ok, stats.errors==0, no monitor error) has a tail and restores the source exactly. Distinct = (scenario, k, path, kind) resp. the injected set.",
